@@ -78,6 +78,12 @@ func Decode(d []float64) ([]Subpath, error) {
 		if d[i+n-1] != c {
 			return sps, fmt.Errorf("command %v at %d not mirrored at its end (%v)", c, i, d[i+n-1])
 		}
+		for k := i + 1; k < i+n-1; k++ {
+			// comparisons with NaN are false: a non-finite number must not get as far as a tolerance test
+			if math.IsNaN(d[k]) || math.IsInf(d[k], 0) {
+				return sps, fmt.Errorf("non-finite number %v in the command at %d", d[k], i)
+			}
+		}
 		end := Pt{d[i+n-3], d[i+n-2]}
 		if c == CmdMove {
 			sps = append(sps, Subpath{Start: end})
